@@ -17,7 +17,11 @@ STEP = 0.25
 MAX_DIFFS = (0.0, 0.25, 0.5, 1.0)
 OFFSETS = (0.0, 0.25, -0.25, 1.0, -1.0)
 EPOCHS = (0.0, 1.5e9)
-JITTERS = (0, 1)  # 1: +0.125 on odd slots of B
+# 1: +0.125 on odd slots of B; 2: +2^-8 on odd slots of B (closer than any
+# default threshold: only max_diff itself may decide whether they pair)
+JITTERS = (0, 1, 2)
+JIT = {1: 0.125, 2: 2.0**-8}
+MAX_DIFFS_FINE = (0.0, 2.0**-9, 2.0**-8, 0.25)
 
 
 def _stamps(mask, nslots, epoch, jitter=0):
@@ -26,7 +30,7 @@ def _stamps(mask, nslots, epoch, jitter=0):
         if mask >> k & 1:
             t = epoch + k * STEP
             if jitter and k % 2:
-                t += 0.125
+                t += JIT[jitter]
             out.append(t)
     return out
 
@@ -137,6 +141,12 @@ def run_case(case, trajs=None):
         raised = None
     except sync.SyncException as e:
         raised = e
+    except Exception as e:  # neither an association nor the documented error
+        info["outcome"] = "crashed"
+        return ["associate_trajectories raised %s (%s) - neither pairs nor "
+                "SyncException (%s)" %
+                (type(e).__name__, e, "something matches" if admits else
+                 "nothing can match")], info
     if common.snapshot(tr1) != snap1 or common.snapshot(tr2) != snap2 \
             or common.raw_state(tr1) != raw1 or common.raw_state(tr2) != raw2:
         msgs.append("associate_trajectories modified an input trajectory")
@@ -224,6 +234,8 @@ def _cls(msgs):
         return {"kind": "counterpart-used-twice"}
     if "modified" in m:
         return {"kind": "input-modified"}
+    if "neither pairs nor" in m:
+        return {"kind": "other-exception"}
     return {"kind": "other"}
 
 
@@ -244,7 +256,8 @@ def shard_run(arg):
                     for jit in JITTERS:
                         t2 = _stamps(m2, nslots, epoch, jit)
                         tr2 = common.make_traj(R2, p2, t2, mode)
-                        for max_diff in MAX_DIFFS:
+                        for max_diff in (MAX_DIFFS if jit != 2 else
+                                         MAX_DIFFS_FINE):
                             for offset in OFFSETS:
                                 case = {
                                     "t1": t1, "t2": t2, "slots1": slots1,
@@ -388,7 +401,8 @@ def run(ctx):
     acc.counters["states"] = acc.counters["evaluations"]
     acc.rule = (
         "all pairs (A,B) of non-empty subsets of a %d-slot timestamp grid "
-        "(spacing 0.25) x B-jitter {none,+0.125 on odd slots} x max_diff %s x "
+        "(spacing 0.25) x B-jitter {none,+0.125,+2^-8 on odd slots} x max_diff %s "
+        "(with the 2^-8 jitter: 0, 2^-9, 2^-8, 0.25) x "
         "offset %s x epoch %s (trajectories built from positions+quaternions"
         " with all cached views populated; thorough: also un-cached), plus "
         "{matrices, positions+quaternions} x {nothing cached, all views "
@@ -398,7 +412,7 @@ def run(ctx):
         (nslots, MAX_DIFFS, OFFSETS, EPOCHS, small))
     acc.bounds = {"slots": nslots, "slots_storage_modes": small}
     acc.assumptions = [
-        "timestamps are multiples of 0.125 so every threshold comparison is "
+        "timestamps and thresholds are multiples of 2^-9 so every comparison is "
         "exact in float64, also at epoch 1.5e9",
         "a state is one enumerated input configuration; a transition is one "
         "call of the real function (associate_trajectories + "
